@@ -313,3 +313,18 @@ def contains_exit(loop_node):
         if k == "Break" and x.get("target") in lid:
             return True
     return False
+
+
+def cond_atoms(c, sense):
+    """Sub-conditions whose truth value is known on the side where `c` evaluates to `sense`
+    (a false disjunction falsifies every disjunct; a true conjunction verifies every conjunct)."""
+    k = c.get("k")
+    if k == "Bin" and c.get("op") == "||":
+        return (cond_atoms(c["a"], False) + cond_atoms(c["b"], False)) if not sense else []
+    if k == "Bin" and c.get("op") == "&&":
+        return (cond_atoms(c["a"], True) + cond_atoms(c["b"], True)) if sense else []
+    if k == "Un" and c.get("op") == "!":
+        return cond_atoms(c["e"], not sense)
+    if k == "Block" and not c.get("stmts") and c.get("expr"):
+        return cond_atoms(c["expr"], sense)
+    return [(c, sense)]
